@@ -872,6 +872,7 @@ class SoRig:
         self.n_so = 0
         self.n_sink = 0
         self.turn = 0
+        self.ea_threads: Dict[int, set] = {}
 
     def th(self) -> int:
         t = self.ds.me()
@@ -914,6 +915,11 @@ def rec_class(base_name: str):
                 return fn(self, *args)
             finally:
                 rig.log(e="ret", so=self._so_id)
+
+        def ensure_active(self):
+            rig = _SO_RIG
+            rig.ea_threads.setdefault(self._so_id, set()).add(rig.th())      # witness only
+            return Base.ensure_active(self)
 
         def on_next(self, value):
             return self._rec("N", value, Base.on_next, value)
@@ -1076,7 +1082,8 @@ def so_traces(ds: detsched.DetSched) -> List[List[Dict[str, Any]]]:
         tr = [dict(e) for e in ds.trace if e.get("so") == k]
         # witness only (ignored by the trace specification): did ANOTHER observer's callback raise in this execution?
         foreign = any(e.get("e") == "dend" and e.get("raised") and e.get("so") != k for e in ds.trace)
-        out.append(tr + [dict(e, other_observer_raised=foreign) if e["e"] == "idle" else e for e in end])
+        nea = len(rig.ea_threads.get(k, ()))
+        out.append(tr + [dict(e, other_observer_raised=foreign, ensure_active_threads=nea) if e["e"] == "idle" else e for e in end])
     return out
 
 
@@ -1113,7 +1120,7 @@ def so_explore(args) -> Dict[str, Any]:
             "complete_bound": ex.complete_bound, "exc_samples": exc_samples, "granularity": gran}
 
 
-SO_TRACE_CONSTS = dict(Producers={0, 1, 2, 3}, LoopThreads=set(range(11, 31)), MaxCalls=0)
+SO_TRACE_CONSTS = dict(Producers={0, 1, 2, 3}, LoopThreads=set(range(11, 400)), MaxCalls=0)   # W<n> -> 10 + n: one thread per run() on NewThread/Timeout schedulers
 SO_TRACE_INVS = ["TypeOK", "OneTerminal", "NothingAfterFault"]
 
 
@@ -1157,7 +1164,7 @@ def so_witness(tr: List[Dict[str, Any]], upto: int) -> Dict[str, Any]:
             f = "overlapping_deliveries"
         elif faulted:
             f = "delivery_after_fault"
-        elif ev["th"] < 11:
+        elif ev["th"] not in SO_TRACE_CONSTS["LoopThreads"]:
             f = "delivery_on_wrong_thread"
         elif (ev["k"], ev["v"]) in deliv:
             f = "delivered_twice"
@@ -1330,6 +1337,7 @@ def so_run(pid: str, tier: str, rule: str, assumptions: List[str]) -> int:
                  "starved_by_foreign_fault_on_shared_event_loop": starved,
                  # witness: how many different threads called on_* (and hence ensure_active) on this scheduled observer
                  "calling_threads": len({e["th"] for e in tr if e["e"] == "call"}),
+                 "ensure_active_threads": tr[upto].get("ensure_active_threads", 0) if upto < len(tr) else 0,
                  "scheduled_observer": so_id, "witness": w, "scenario": sc, "rejected_at": upto, "trace": tr, "schedules_with_this_trace": n,
                  "decisions": dec, "line_switch_points": lines})
     ck.note("language_level_only", lang_only)
